@@ -1,5 +1,6 @@
 import QuantemModel.Props.C12
 import QuantemModel.Model.AberrationOrder
+import QuantemModel.Model.AberrationGrid
 /-!
 C12 (growth round 6) — the conversions for EVERY `max_order`.
 
@@ -96,5 +97,49 @@ theorem c2p_order_prefix_of_translated {R : Type} [Num R] (c : String → R) (k 
 
 example : c2pOrder (fun _ => (1 : ℝ)) 3 <+: cartesian_to_polar_aberrations (fun _ => (1 : ℝ)) :=
   c2p_order_prefix_of_translated _ 3 (by decide)
+
+/-! ### `aberration_surface_grad` on the detector grid (front end + translated gradients, end to end) -/
+
+/-- the parallax shifts are `aberration_surface_grad / 2π`, pixel by pixel, with or without grid rotation (any carrier). -/
+theorem lateral_shift_is_surface_grad {R : Type} [Num R] (kx ky lam : R) (th : Option R) (c : String → R) :
+    lateralShift kx ky lam th c =
+      ((surfaceGradAt kx ky lam th c).1 / Num.two / Num.pi, (surfaceGradAt kx ky lam th c).2 / Num.two / Num.pi) := by
+  cases th <;> rfl
+
+example : lateralShift (1 : ℝ) 2 3 none (fun _ => 1) =
+    ((surfaceGradAt (1 : ℝ) 2 3 none (fun _ => 1)).1 / Num.two / Num.pi,
+     (surfaceGradAt (1 : ℝ) 2 3 none (fun _ => 1)).2 / Num.two / Num.pi) := lateral_shift_is_surface_grad _ _ _ _ _
+
+/-- **`aberration_surface_grad` = λ·∇χ on the grid** (front end composed with `cartesian_gradient_true`): for every
+wavelength λ > 0, every grid rotation (or none), every coefficient set of all 25 symbols and every pixel whose
+(rotated) spatial frequency p = (p₁, p₂) is not the origin, the two numbers the function returns are λ times the partial
+derivatives of the surface in the scattering-angle coordinates (p₁·λ, p₂·λ) of that pixel. -/
+theorem surface_grad_true_gradient (kx ky lam : ℝ) (th : Option ℝ) (c : String → ℝ) (hlam : 0 < lam)
+    (p : ℝ × ℝ) (hp : p = gridPoint kx ky th) (h0 : p.1 * p.1 + p.2 * p.2 ≠ 0) :
+    HasDerivAt (fun t => aberration_surface (√(t * t + (p.2 * lam) * (p.2 * lam))) (Complex.arg ⟨t, p.2 * lam⟩) lam c)
+      ((surfaceGradAt kx ky lam th c).1 / lam) (p.1 * lam) ∧
+    HasDerivAt (fun t => aberration_surface (√((p.1 * lam) * (p.1 * lam) + t * t)) (Complex.arg ⟨p.1 * lam, t⟩) lam c)
+      ((surfaceGradAt kx ky lam th c).2 / lam) (p.2 * lam) := by
+  have key0 : surfaceGradAt kx ky lam th c =
+      aberration_surface_cartesian_gradients (√(p.1 * p.1 + p.2 * p.2) * lam) (Complex.arg ⟨p.1, p.2⟩) c := by
+    rw [hp]
+    unfold surfaceGradAt
+    simp only [polar_coordinates, atan2_eq]
+    num_real
+  have hnn : 0 ≤ p.1 * p.1 + p.2 * p.2 := add_nonneg (mul_self_nonneg _) (mul_self_nonneg _)
+  have hsq : (p.1 * lam) * (p.1 * lam) + (p.2 * lam) * (p.2 * lam) = (p.1 * p.1 + p.2 * p.2) * (lam * lam) := by ring
+  have hsqrt : √((p.1 * lam) * (p.1 * lam) + (p.2 * lam) * (p.2 * lam)) = √(p.1 * p.1 + p.2 * p.2) * lam := by
+    rw [hsq, Real.sqrt_mul hnn, Real.sqrt_mul_self hlam.le]
+  have harg : Complex.arg ⟨p.1 * lam, p.2 * lam⟩ = Complex.arg ⟨p.1, p.2⟩ := by
+    have h : (⟨p.1 * lam, p.2 * lam⟩ : ℂ) = (lam : ℂ) * ⟨p.1, p.2⟩ := by
+      apply Complex.ext <;> simp [mul_comm]
+    rw [h, Complex.arg_real_mul _ hlam]
+  have h0' : (p.1 * lam) * (p.1 * lam) + (p.2 * lam) * (p.2 * lam) ≠ 0 := by
+    rw [hsq]; exact mul_ne_zero h0 (mul_ne_zero hlam.ne' hlam.ne')
+  rw [key0, ← hsqrt, ← harg]
+  exact QuantemModel.Props.C12.cartesian_gradient_true (p.1 * lam) (p.2 * lam) lam c h0'
+
+example : ∃ p : ℝ × ℝ, p = gridPoint (1 : ℝ) 0 none ∧ p.1 * p.1 + p.2 * p.2 ≠ 0 :=
+  ⟨(1, 0), rfl, by norm_num⟩
 
 end QuantemModel.Props.C12Ext
